@@ -121,6 +121,27 @@ def scale_float(ctx, op, span, neg, kbits):
     ctx.observe("r", list(native_triple(ctx, r)))
 
 
+def scale_literal_float(ctx, op, span, neg, factor):
+    """factors such as 0.1 or 1.1 are not of the form a/2^k: the float is taken literally (its exact binary value)"""
+    from fractions import Fraction
+    P = ctx.P
+    v = mixed_amount(ctx, "a", "us", span, neg=neg)
+    a = P.Duration(microseconds=v)
+    fr = Fraction(factor)
+    if op == "mul":
+        r = a * factor
+        n_, d_ = v * fr.numerator, fr.denominator
+    else:
+        r = a / factor
+        n_, d_ = v * fr.denominator, fr.numerator
+    q, rem = divmod(n_, d_)
+    twice = 2 * rem
+    up = OR(twice > d_, AND(twice == d_, q % 2 == 1))
+    ctx.claim("returns a Duration", type(r) is P.Duration)
+    ctx.claim(f"{op} by {factor}: exact rational result rounded half to even (as timedelta does)", td_us(ctx, r) == q + ite(up, 1, 0))
+    ctx.observe("r", list(native_triple(ctx, r)))
+
+
 def by_duration(ctx, op, other, negs, span):
     P = ctx.P
     a, va = _dur(ctx, "a", span, negs[0])
@@ -184,6 +205,10 @@ def cases(tier):
         for kb in ((1, 3) if tier == "quick" else (0, 1, 2, 3, 5)):
             out.append(dict(name=f"{op} float /2^{kb}", fn=scale_float, params=dict(op=op, span=span, neg=False, kbits=kb),
                             bounds=f"Duration up to {span} days {op} every float num/2^{kb}, num in -6..6"))
+    for op in ("mul", "truediv"):
+        for factor in ((0.1, 1.1) if tier == "quick" else (0.1, 0.3, 1.1, 2.7, 0.007)):
+            out.append(dict(name=f"{op} float literal {factor}", fn=scale_literal_float, params=dict(op=op, span=span, neg=False, factor=factor),
+                            bounds=f"Duration up to {span} days {op} the float {factor!r}"))
     for op in ("floordiv", "truediv", "mod", "divmod"):
         for other in ("duration", "timedelta"):
             for negs in (sg2 if tier != "quick" else [(1, 0), (0, 1)]):
